@@ -841,6 +841,9 @@ def run(model, rep, tier):
     check_mkl_base(model, rep)
     check_products(model, rep)
     check_compress_indices(model, rep)
+    rep.rule('R15.11', 'compress_indices never returns on counts / end points of the row indices alone (= R05.9)')
+    from rules import shortcuts
+    shortcuts.check(model, rep, 'R15.11', 'numeric:compress_indices', why='the number of stored entries and the first and last row do not determine the row pointers')
     rep.require('R15.2', 12)
     rep.require('R15.1', 9)
     rep.require('R15.3', 30)
